@@ -9,7 +9,7 @@ Open Scope N_scope.
 (* (1) loss and re-grant of channel A (2) with a document moved out of A in between: the re-granted channel is
    back-filled, back-fills drop removals, A is accessible again so nothing is revoked -- the client keeps d1 *)
 Definition ops_backfill_skips_removal : list sop :=
-  [SUChans [2]; SPut 1 [2]; SPull 0; SUChans []; SPut 1 [3]; SUChans [2]; SPull 0].
+  [SUChans [2]; SPut 1 [2] [] []; SPull 0; SUChans []; SPut 1 [3] [] []; SUChans [2]; SPull 0].
 
 Lemma backfill_skips_removal_trace :
   map (fun o => (o_rows o, o_client o, o_caught o, o_visible o)) (trace ops_backfill_skips_removal) =
@@ -21,7 +21,7 @@ Proof. vm_compute. reflexivity. Qed.
    row is ordered before the plain sequences 4 and 5 but its token is printed "6", so the client resumes after 6 and
    never receives the user row 4 nor document d2 written at 5 *)
 Definition ops_revocation_token_skips_rows : list sop :=
-  [SUChans [2; 5]; SPut 1 [5]; SPull 0; SUChans [2]; SPut 2 [2]; SPut 1 [5]; SPull 1; SPull 0].
+  [SUChans [2; 5]; SPut 1 [5] [] []; SPull 0; SUChans [2]; SPut 2 [2] [] []; SPut 1 [5] [] []; SPull 1; SPull 0].
 
 Lemma revocation_token_skips_rows_trace :
   map (fun o => (o_rows o, o_client o, o_caught o, o_visible o)) (trace ops_revocation_token_skips_rows) =
